@@ -713,6 +713,15 @@ func (p *Program) objectInputs(out Prov, obj ssa.Value, at ssa.Instruction, dept
 	default:
 		return
 	}
+	// only reference-like objects can accumulate state: interfaces (hash.Hash, io.Writer) and pointers
+	switch obj.Type().Underlying().(type) {
+	case *types.Interface, *types.Pointer:
+	default:
+		return
+	}
+	if isCtxType(obj.Type()) {
+		return
+	}
 	seen := map[ssa.Value]bool{}
 	var walk func(v ssa.Value)
 	walk = func(v ssa.Value) {
